@@ -1,4 +1,16 @@
 import PV.Model.Table
 import PV.Spec.Map
+import PV.Lemmas.Table.Run
+/-
+C13 helper lemmas (split over PV/Lemmas/Table/*.lean):
+  Basic    index arithmetic, cyclic intervals, counting, Distinct / PathClosed
+  Probe    firstEmpty / probe on a well-formed table
+  Fill     effect of writing one slot
+  Insert   structural invariant `Good`, insertion of a fresh key, insertList (phase 3 of Double)
+  Roll     rollOver (phase 1 of Double)
+  Reinsert reinsertAll (phase 2 of Double) with its loop invariant `P2`
+  Double   `double_inv`
+  Run      `Inv`, `Abs`, `run_inv`
+-/
 namespace PV.Lemmas.Table
 end PV.Lemmas.Table
